@@ -375,3 +375,15 @@ Section Spec.
     | TObfs4 => forall k, k < length s -> obfs4_hit R (firstn 32 s) (firstn k s) = None
     end.
 End Spec.
+
+(* ------------------------------------------------------------------ peer scripts *)
+
+(* the bytes of a peer script, in order *)
+Definition stream_of (script : list (N * bytes)) : bytes := concat (map snd script).
+
+(* every chunk arrives before the deadline D, at instants that never decrease *)
+Fixpoint in_time (D now : N) (script : list (N * bytes)) : Prop :=
+  match script with
+  | [] => True
+  | x :: rest => (now <= fst x)%N /\ (fst x < D)%N /\ in_time D (fst x) rest
+  end.
